@@ -967,4 +967,287 @@ theorem inv_new {p : Nat} {iid : Nat} {m : List (Cid × Nat)} {hid : Cid} {e : O
       simp [countedSeqs, IdInfo.countsTowardsLimit, IdInfo.isRetired]
     · simp [observe, View.active, View.seqs, emptyState]
 
+
+/-! ### ghost invariant: every frame carries what the generator offered for that sequence number -/
+
+/-- the id can never be (re)transmitted again -/
+def settled (i : IdInfo) : Bool :=
+  match i.status with
+  | .active | .pendingRetirementConfirmation _ | .pendingRemoval _ => true
+  | _ => false
+
+structure Inv3 (s : State) : Prop where
+  regSorted : (s.registered.map (·.1)).Pairwise (· < ·)
+  regBelow : ∀ r ∈ s.registered, r.1 < s.nextSeq
+  idsReg : ∀ i ∈ s.ids, ∃ t, (i.seq, i.id, t) ∈ s.registered ∧ (i.token = t ∨ settled i = true)
+  framesReg : ∀ f ∈ emitted s, (f.seq, f.cid, f.token) ∈ s.registered
+
+theorem framesOf_append (a b : List Ev) : framesOf (a ++ b) = framesOf a ++ framesOf b := by
+  simp [framesOf, List.filterMap_append]
+
+theorem framesOf_tx (fs : List Frame) : framesOf (fs.map Ev.txNcid) = fs := by
+  induction fs with
+  | nil => rfl
+  | cons f rest ih =>
+    simp only [framesOf] at ih
+    simp [framesOf, ih]
+
+theorem framesOf_rxRetire (q : Nat) : framesOf [Ev.rxRetire q] = [] := rfl
+
+theorem Inv3.of_ids {s s' : State} (h : Inv3 s) (hr : s'.registered = s.registered) (hn : s'.nextSeq = s.nextSeq)
+    (he : emitted s' = emitted s)
+    (hi : ∀ i' ∈ s'.ids, ∃ i ∈ s.ids, i'.seq = i.seq ∧ i'.id = i.id ∧
+      ((i'.token = i.token ∧ (settled i = true → settled i' = true)) ∨ settled i' = true)) : Inv3 s' := by
+  refine ⟨by rw [hr]; exact h.regSorted, by rw [hr, hn]; exact h.regBelow, ?_, by rw [he, hr]; exact h.framesReg⟩
+  intro i' hi'
+  obtain ⟨i, him, hs, hid, htok⟩ := hi i' hi'
+  obtain ⟨t, ht, hor⟩ := h.idsReg i him
+  refine ⟨t, by rw [hr, hs, hid]; exact ht, ?_⟩
+  rcases htok with ⟨h1, h2⟩ | h1
+  · rcases hor with hor | hor
+    · exact Or.inl (h1.trans hor)
+    · exact Or.inr (h2 hor)
+  · exact Or.inr h1
+
+theorem inv3_register {s : State} (h : Inv3 s) (id : Cid) (e : Option Nat) (t : Token) :
+    Inv3 (registerConnectionId s id e t).1 := by
+  rcases register_cases s id e t with ⟨h1, _⟩ | ⟨m, _, _, _, _, heq⟩
+  · rw [h1]; exact h
+  · rw [heq]
+    refine ⟨?_, ?_, ?_, ?_⟩
+    · simp only [registerOk, List.map_append, List.map_cons, List.map_nil]
+      rw [List.pairwise_append]
+      refine ⟨h.regSorted, by simp, ?_⟩
+      intro a ha b hb
+      simp only [List.mem_singleton] at hb
+      subst hb
+      simp only [List.mem_map] at ha
+      obtain ⟨r, hr, rfl⟩ := ha
+      exact h.regBelow r hr
+    · simp only [registerOk, List.mem_append, List.mem_singleton]
+      intro r hr
+      rcases hr with hr | hr
+      · have := h.regBelow r hr; omega
+      · subst hr; simp
+    · simp only [registerOk, List.mem_append, List.mem_singleton]
+      intro i hi
+      rcases hi with hi | hi
+      · obtain ⟨t', ht', hor⟩ := h.idsReg i hi
+        exact ⟨t', Or.inl ht', hor⟩
+      · subst hi
+        exact ⟨t, Or.inr rfl, Or.inl rfl⟩
+    · intro f hf
+      have : emitted (registerOk s id e t m) = emitted s := rfl
+      rw [this] at hf
+      simp only [registerOk, List.mem_append]
+      exact Or.inl (h.framesReg f hf)
+
+theorem inv3_onRetire {s : State} (h : Inv3 s) (seq : Nat) (dcid : Cid) (rtt now : Nat) :
+    Inv3 (onRetireConnectionId s seq dcid rtt now).1 := by
+  rcases onRetire_cases s seq dcid rtt now with ⟨h1, _⟩ | ⟨h1, _⟩ | ⟨pre, x, post, hs, _, h1⟩
+  · rw [h1]; exact h
+  · rw [h1]
+    refine h.of_ids rfl rfl ?_ ?_
+    · show framesOf (s.events ++ [Ev.rxRetire seq]) = framesOf s.events
+      rw [framesOf_append, framesOf_rxRetire, List.append_nil]
+    · intro i hi; exact ⟨i, hi, rfl, rfl, Or.inl ⟨rfl, id⟩⟩
+  · rw [h1]
+    refine h.of_ids rfl rfl ?_ ?_
+    · show framesOf (s.events ++ [Ev.rxRetire seq]) = framesOf s.events
+      rw [framesOf_append, framesOf_rxRetire, List.append_nil]
+    · intro i hi
+      simp only [List.mem_append, List.mem_cons] at hi
+      rcases hi with hi | hi | hi
+      · exact ⟨i, by simp [hs, hi], rfl, rfl, Or.inl ⟨rfl, id⟩⟩
+      · subst hi
+        exact ⟨x, by simp [hs], rfl, rfl, Or.inr rfl⟩
+      · exact ⟨i, by simp [hs, hi], rfl, rfl, Or.inl ⟨rfl, id⟩⟩
+
+theorem inv3_onHandshakeConfirmed {s : State} (h : Inv3 s) : Inv3 (onHandshakeConfirmed s) := by
+  unfold onHandshakeConfirmed
+  split
+  · rcases retireHandshake_cases s with h1 | ⟨pre, x, post, hs, _, _, h1⟩
+    · rw [h1]; exact h
+    · rw [h1]
+      refine h.of_ids rfl rfl rfl ?_
+      intro i hi
+      simp only [List.mem_append, List.mem_cons] at hi
+      rcases hi with hi | hi | hi
+      · exact ⟨i, by simp [hs, hi], rfl, rfl, Or.inl ⟨rfl, id⟩⟩
+      · subst hi
+        exact ⟨x, by simp [hs], rfl, rfl, Or.inr rfl⟩
+      · exact ⟨i, by simp [hs, hi], rfl, rfl, Or.inl ⟨rfl, id⟩⟩
+  · exact h
+
+theorem inv3_onPacketAck {s : State} (h : Inv3 s) (set : List Nat) : Inv3 (onPacketAck s set) := by
+  unfold onPacketAck
+  split
+  · exact h
+  · refine h.of_ids rfl rfl rfl ?_
+    intro i' hi'
+    simp only [List.mem_map] at hi'
+    obtain ⟨i, hi, rfl⟩ := hi'
+    refine ⟨i, hi, onAck_seq set i, onAck_id set i, ?_⟩
+    unfold IdInfo.onAck
+    split
+    · split
+      · exact Or.inr rfl
+      · exact Or.inl ⟨rfl, id⟩
+    · exact Or.inl ⟨rfl, id⟩
+
+theorem inv3_onPacketLoss {s : State} (h : Inv3 s) (set : List Nat) : Inv3 (onPacketLoss s set) := by
+  unfold onPacketLoss
+  split
+  · exact h
+  · refine h.of_ids rfl rfl rfl ?_
+    intro i' hi'
+    simp only [List.mem_map] at hi'
+    obtain ⟨i, hi, rfl⟩ := hi'
+    refine ⟨i, hi, onLoss_seq set i, onLoss_id set i, ?_⟩
+    unfold IdInfo.onLoss
+    split
+    · next pn hst =>
+      split
+      · refine Or.inl ⟨rfl, ?_⟩
+        intro hset; simp [settled, hst] at hset
+      · exact Or.inl ⟨rfl, id⟩
+    · exact Or.inl ⟨rfl, id⟩
+
+theorem inv3_onTimeout {s : State} (h : Inv3 s) (now : Nat) : Inv3 (onTimeout s now) := by
+  unfold onTimeout
+  split
+  · split
+    · unfold unregisterExpiredIds
+      refine h.of_ids rfl rfl rfl ?_
+      intro i' hi'
+      simp only [List.mem_filter, List.mem_map] at hi'
+      obtain ⟨⟨i, hi, rfl⟩, _⟩ := hi'
+      refine ⟨i, hi, retireIfReady_seq now i, retireIfReady_id now i, ?_⟩
+      unfold IdInfo.retireIfReady
+      split
+      · exact Or.inr rfl
+      · exact Or.inl ⟨rfl, id⟩
+    · exact h
+  · exact h
+
+/-- what `transmitLoop` does to each id -/
+theorem transmitLoop_ids (rpt : Nat) (c : Constraint) (pn : Nat) (ids : List IdInfo) (room : Nat) :
+    ∀ i' ∈ (transmitLoop rpt c pn ids room).1, ∃ i ∈ ids, i'.seq = i.seq ∧ i'.id = i.id ∧ i'.token = i.token ∧
+      i'.retirementTime = i.retirementTime ∧
+      (i' = i ∨ ((i.status = .pendingIssuance ∨ i.status = .pendingReissue) ∧ i'.status = .pendingAcknowledgement pn)) := by
+  induction ids generalizing room with
+  | nil => simp [transmitLoop]
+  | cons i rest ih =>
+    unfold transmitLoop
+    split
+    · next hc =>
+      cases room with
+      | zero =>
+        intro i' hi'
+        simp only [List.mem_cons] at hi'
+        rcases hi' with rfl | hi'
+        · exact ⟨i', by simp, rfl, rfl, rfl, rfl, Or.inl rfl⟩
+        · obtain ⟨j, hj, hh⟩ := ih 0 i' hi'
+          exact ⟨j, by simp [hj], hh⟩
+      | succ r =>
+        intro i' hi'
+        simp only [List.mem_cons] at hi'
+        rcases hi' with rfl | hi'
+        · exact ⟨i, by simp, rfl, rfl, rfl, rfl, Or.inr ⟨canTransmit_counts i c hc, rfl⟩⟩
+        · obtain ⟨j, hj, hh⟩ := ih r i' hi'
+          exact ⟨j, by simp [hj], hh⟩
+    · intro i' hi'
+      simp only [List.mem_cons] at hi'
+      rcases hi' with rfl | hi'
+      · exact ⟨i', by simp, rfl, rfl, rfl, rfl, Or.inl rfl⟩
+      · obtain ⟨j, hj, hh⟩ := ih room i' hi'
+        exact ⟨j, by simp [hj], hh⟩
+
+theorem inv3_onTransmit {s : State} (h : Inv3 s) (c : Constraint) (pn room : Nat) :
+    Inv3 (onTransmit s c pn room) := by
+  unfold onTransmit
+  split
+  · exact h
+  · have hev := transmitLoop_events s.retirePriorTo c pn s.ids room
+    refine ⟨h.regSorted, h.regBelow, ?_, ?_⟩
+    · intro i' hi'
+      obtain ⟨i, hi, hs, hid, htok, _, hst⟩ := transmitLoop_ids _ _ _ _ _ i' hi'
+      obtain ⟨t, ht, hor⟩ := h.idsReg i hi
+      refine ⟨t, by rw [hs, hid]; exact ht, ?_⟩
+      rcases hst with rfl | ⟨hst, _⟩
+      · exact hor
+      · rcases hor with hor | hor
+        · exact Or.inl (htok.trans hor)
+        · rcases hst with hst | hst <;> simp [settled, hst] at hor
+    · intro f hf
+      have hf' : f ∈ framesOf (s.events ++ (transmitLoop s.retirePriorTo c pn s.ids room).2) := hf
+      rw [framesOf_append, hev, framesOf_tx] at hf'
+      have hf := hf'
+      simp only [List.mem_append] at hf
+      rcases hf with hf | hf
+      · exact h.framesReg f hf
+      · obtain ⟨i, hi, rfl, hst⟩ := transmitFrames_mem _ _ _ _ f hf
+        obtain ⟨t, ht, hor⟩ := h.idsReg i hi
+        rcases hor with hor | hor
+        · simp only [hor]; exact ht
+        · rcases hst with hst | hst <;> simp [settled, hst] at hor
+
+theorem inv3_step (p : Nat) {s : State} (h : Inv3 s) (op : Op) : Inv3 (Quic.Conn.LocalIds.step p s op).1 := by
+  cases op with
+  | setLimit => exact h.of_ids rfl rfl rfl (fun i hi => ⟨i, hi, rfl, rfl, Or.inl ⟨rfl, id⟩⟩)
+  | register id e t => exact inv3_register h id e t
+  | onRetire seq dcid rtt now => exact inv3_onRetire h seq dcid rtt now
+  | onTimeout now => exact inv3_onTimeout h now
+  | onTransmit c pn room => exact inv3_onTransmit h c pn room
+  | onPacketAck set => exact inv3_onPacketAck h set
+  | onPacketLoss set => exact inv3_onPacketLoss h set
+  | onHandshakeConfirmed => exact inv3_onHandshakeConfirmed h
+  | envInsert id owner =>
+    simp only [Quic.Conn.LocalIds.step]
+    split
+    · exact h
+    · split
+      · exact h.of_ids rfl rfl rfl (fun i hi => ⟨i, hi, rfl, rfl, Or.inl ⟨rfl, fun x => x⟩⟩)
+      · exact h
+  | envRemove id =>
+    simp only [Quic.Conn.LocalIds.step]
+    split
+    · exact h
+    · exact h.of_ids rfl rfl rfl (fun i hi => ⟨i, hi, rfl, rfl, Or.inl ⟨rfl, fun x => x⟩⟩)
+
+theorem inv3_run (p : Nat) {s : State} (h : Inv3 s) (ops : List Op) : Inv3 (run p s ops) := by
+  induction ops generalizing s with
+  | nil => exact h
+  | cons op ops ih => exact ih (inv3_step p h op)
+
+theorem inv3_new {iid : Nat} {m : List (Cid × Nat)} {hid : Cid} {e : Option Nat} {t : Token} {rot : Bool} {s : State}
+    (h : new iid m hid e t rot = some s) : Inv3 s := by
+  obtain ⟨m', _, rfl⟩ := new_spec h
+  refine ⟨by simp, by simp, ?_, by simp [emitted, framesOf]⟩
+  intro i hi
+  simp only [List.mem_singleton] at hi
+  subst hi
+  exact ⟨t, by simp, Or.inl rfl⟩
+
+/-- a list sorted strictly by the first component has at most one entry per key -/
+theorem sorted_fst_unique {β : Type} (l : List (Nat × β)) (h : (l.map (·.1)).Pairwise (· < ·))
+    (a b : Nat × β) (ha : a ∈ l) (hb : b ∈ l) (hab : a.1 = b.1) : a = b := by
+  induction l with
+  | nil => cases ha
+  | cons x rest ih =>
+    simp only [List.map_cons, List.pairwise_cons, List.mem_map] at h
+    cases ha with
+    | head =>
+      cases hb with
+      | head => rfl
+      | tail _ hb =>
+        have := h.1 b.1 ⟨b, hb, rfl⟩
+        omega
+    | tail _ ha =>
+      cases hb with
+      | head =>
+        have := h.1 a.1 ⟨a, ha, rfl⟩
+        omega
+      | tail _ hb => exact ih h.2 ha hb
+
 end Quic.Proofs.LocalIds
